@@ -337,7 +337,7 @@ def fuses(x, y):
 RESERVED_NAMES = ["list", "array", "function", "for", "foreach", "if", "else", "while", "echo", "print", "new", "static", "abstract", "final", "public",
                   "private", "use", "namespace", "return", "switch", "case", "default", "try", "catch", "throw", "global", "var", "const", "isset", "unset",
                   "empty", "include", "require", "clone", "instanceof", "as", "and", "or", "xor", "do", "break", "continue", "goto", "callable", "trait",
-                  "interface", "extends", "implements", "yield", "finally", "declare", "exit", "die", "List", "FOR", "Class_"[:-1] + "es"]
+                  "interface", "extends", "implements", "yield", "finally", "declare", "exit", "die", "List", "FOR"]
 
 HALT_PAYLOAD = b" raw\x00data <?php $zz = 1; ?>\n/* not a comment */ 'bin\r\n"
 
